@@ -148,6 +148,23 @@ CLAIMED["C18"] = dict(
     technique="Lean 4 proof (model = vendor-format specification for all datagrams and arrival lists) + differential against the real search on a virtual clock",
     note="Real socket binding / broadcast is environment (socket.socket is replaced inside comms.discovery). Datagrams arriving exactly at a request instant are not generated (ordering unspecified).")
 
+CLAIMED["C05"] = dict(
+    text="Theorems in Props/C054.lean (AirTouch 4: 2B, 2D, FF11 both record formats, FF12, FF10, FF30) and Props/C055.lean (AirTouch 5: "
+         "C021, C023, FF11, FF13, FF10, FF30), for EVERY payload: if the decoder model accepts it, the independent vendor-document "
+         "reader (Spec/At4Read, Spec/At5Read - written from the protocol documents without sight of the implementation) reads the same "
+         "payload and every field agrees record by record (identity, power, mode, fan, set-point, temperature, damper, flags, limits, "
+         "names, membership, error code), with the not-available sentinels absent; records are read at exactly the announced stride "
+         "offsets (stride_offsets_*, stride_accepted_*, stride below the known layout rejected); a vendor reading with an undefined "
+         "code is rejected by the decoder (undefined_rejected_*). The few byte-exact relaxations (named in ref/SPEC_COMPARISON.md) are "
+         "disjuncts of the Agree relations, and the hypotheses the literal statement needs are exhibited by proved counterexamples "
+         "(*_needs_length: payload shorter than announced, which the framing layer excludes; *_refuted: ability following-length, a "
+         "recorded known finding). The decoder models are tied to the real decoders by the C03 differential; the check also judges the "
+         "REAL decoders' output against the vendor reader on every byte value at every record position, every adjacent byte pair "
+         "(thorough), all counts and strides.",
+    design_ref="DESIGN.md section 7, C05 and section 12",
+    technique="Lean 4 proof (decoder model = independent vendor-document reader, for all payloads) + differential of the real decoders against both the model and the vendor reader",
+    note=CODEC_NOTE + "Timer status (0x37 / 0xC033) is not in the vendor documents; it is covered by C03/C17 only. Known findings: AT4/AT5 ability following-length byte is not used to advance.")
+
 NOT_YET = {
 }
 
